@@ -8,7 +8,7 @@ prop("C06", pkg="c06",
           "entry point and 8 target types. Oracle: the call returns (recover with SetPanicOnFault; process death or a 120 s watchdog = violation with the journalled "
           "case as replay). Non-trivial = hostile value, composite generated type, or mutated/truncated document of >= 8 bytes into a composite target.",
      quick=dict(shards=16, scale=1, timeout=1200),
-     thorough=dict(shards=16, scale=20, timeout=3400),
+     thorough=dict(shards=16, rounds=4, scale=1.5, timeout=3400),
      fuzz=[('FuzzUnmarshalNoCrash', 90)],
      technique="rapid property-based robustness testing + enumerated hostile inputs, out-of-process supervision (journal, watchdog); oracle: the call returns",
      level_text="Exploration: totality ('returns a value or an error') checked on several hundred thousand calls per quick run under recover with faults converted to "
